@@ -3,5 +3,6 @@ pub mod codec;
 pub mod obs;
 pub mod server;
 pub mod steps;
+pub mod totality;
 pub mod values;
 pub mod zoo;
